@@ -29,6 +29,11 @@ tolerance is scaled by the conditioning of each input (DESIGN 2.4).
   arc-utils         P utils.circle_angles / short_arc / right_to_left /
                     arc_include / sphere_inversion / sphere_through contracts.
   units             W degrees == radians * 180/pi.
+  (histories)       workload only: objects derived from a composite (flatten_to_unit,
+                    reshape, Class(obj), astype, obj[:]) stay alive while items are
+                    assigned into one of them; every live object is queried before
+                    and after, and the postconditions above judge each answer
+                    against the data of the object that gave it.
   arm/...           branch counters (short_arc flip/keep, right_to_left flip/keep,
                     arc_include swap/keep): each arm must be observed.
 """
@@ -50,7 +55,11 @@ RULE = ("cases = (object kind, dimension 2..4, composite shape, model, degrees/"
         "endpoint from the point at infinity, rescaled representatives incl. "
         "lightlike differences, horospheres at all centres, horoarcs (unit and "
         "composite), subspaces of dimension 1..n-1 from ideal bases (generic and "
-        "symmetric) and hyperplanes from normals; non-trivial = distinct points, "
+        "symmetric) and hyperplanes from normals; histories: relatives of a "
+        "composite segment / geodesic / horosphere kept alive across item "
+        "assignments (index, row / slice, mask keys; object or array values) into "
+        "the original or a relative, all live objects re-queried; "
+        "non-trivial = distinct points, "
         "affinely independent basis (sigma_min >= 1e-3); distinct = distinct "
         "(kind, dimension, shape, model, class, branch arm) signatures")
 ASSUMPTIONS = [
